@@ -72,44 +72,62 @@ pub struct Wire {
 // Session tracking (trusted base shared by encoder and lexer)
 
 /// For every record: `Some((session index, stream offset))` if its body belongs
-/// to the Params stream of a session.  Also returns per session its stream length.
-pub fn track_sessions(recs: &[Rec]) -> (Vec<Option<(usize, u64)>>, Vec<u64>) {
+/// to the Params stream of a session.  Also returns per session its stream length
+/// and the offset of the BeginRequest that opened it.
+///
+/// `phases` are the wire offsets at which a request parser starts in Header mode:
+/// 0, and every point at which a stream parser was converted back
+/// (`into_request_parser`).  Between the end of a session's Params stream and the
+/// next phase start the bytes belong to the stream parser and open no session.
+pub fn track_sessions(recs: &[Rec], phases: &[u64]) -> (Vec<Option<(usize, u64)>>, Vec<u64>, Vec<u64>) {
+    #[derive(PartialEq)]
+    enum Mode { Header, Params(u32), Stream }
     let mut owner = vec![None; recs.len()];
     let mut slens: Vec<u64> = Vec::new();
-    let mut cur: Option<u32> = None; // request id of the session in Params mode
+    let mut begins: Vec<u64> = Vec::new();
+    let mut mode = Mode::Stream;
+    let mut next_phase = 0usize;
     for (i, r) in recs.iter().enumerate() {
+        while next_phase < phases.len() && phases[next_phase] <= r.off {
+            if phases[next_phase] == r.off { mode = Mode::Header; }
+            next_phase += 1;
+        }
+        if mode == Mode::Stream { continue; }
         if r.ver != 1 {
-            break; // fatal header: nothing after it is interpreted
+            mode = Mode::Stream; // fatal header: nothing after it is interpreted by this parser
+            continue;
         }
         if !(1..=11).contains(&r.ty) || (r.ty == T_GETVALUES && r.id == 0) {
             continue;
         }
-        match cur {
-            None => {
+        match mode {
+            Mode::Header => {
                 if r.ty == T_BEGIN {
-                    if r.clen != 8 { break; }
+                    if r.clen != 8 { mode = Mode::Stream; continue; }
                     if !(1..=3).contains(&r.role) { continue; }
-                    if r.id == 0 { break; }
-                    cur = Some(r.id);
+                    if r.id == 0 { mode = Mode::Stream; continue; }
+                    mode = Mode::Params(r.id);
                     slens.push(0);
+                    begins.push(r.off);
                 }
             },
-            Some(id) => {
+            Mode::Params(id) => {
                 if r.ty == T_PARAMS && r.id == id {
                     if r.clen == 0 {
-                        cur = None;
+                        mode = Mode::Stream;
                     } else {
                         let k = slens.len() - 1;
                         owner[i] = Some((k, slens[k]));
                         slens[k] += r.clen;
                     }
                 } else if r.ty == T_ABORT && r.id == id {
-                    cur = None;
+                    mode = Mode::Header;
                 }
             },
+            Mode::Stream => {},
         }
     }
-    (owner, slens)
+    (owner, slens, begins)
 }
 
 // ---------------------------------------------------------------------------
@@ -173,7 +191,11 @@ pub struct Encoded {
 }
 
 pub fn encode(w: &Wire, seed: u64) -> Result<Encoded, String> {
-    let (owner, slens) = track_sessions(&w.recs);
+    encode_phased(w, seed, &[0])
+}
+
+pub fn encode_phased(w: &Wire, seed: u64, phases: &[u64]) -> Result<Encoded, String> {
+    let (owner, slens, _) = track_sessions(&w.recs, phases);
     // Params streams from the pair lists
     let mut streams: Vec<Vec<u8>> = Vec::new();
     for (k, &slen) in slens.iter().enumerate() {
@@ -340,8 +362,13 @@ pub fn lex_params(stream: &[u8], keys: &mut KeyTable) -> Vec<Pair> {
     out
 }
 
-/// Describes an arbitrary byte string as an abstract wire.
+/// Describes an arbitrary byte string as an abstract wire (one request-parser phase from offset 0).
 pub fn lex(bytes: &[u8], keys: &mut KeyTable) -> Wire {
+    lex_phased(bytes, keys, &[0])
+}
+
+/// Describes a byte string given the offsets at which request parsers start.
+pub fn lex_phased(bytes: &[u8], keys: &mut KeyTable, phases: &[u64]) -> Wire {
     let mut recs = Vec::new();
     let mut o = 0usize;
     while bytes.len() - o >= 8 {
@@ -363,11 +390,11 @@ pub fn lex(bytes: &[u8], keys: &mut KeyTable) -> Wire {
         let end = r.end();
         recs.push(r);
         if bad || end as usize >= bytes.len() {
-            break;
+            break; // nothing behind an unknown version is ever framed by either parser
         }
         o = end as usize;
     }
-    let (owner, slens) = track_sessions(&recs);
+    let (owner, slens, _) = track_sessions(&recs, phases);
     let mut streams: Vec<Vec<u8>> = vec![Vec::new(); slens.len()];
     for (i, r) in recs.iter().enumerate() {
         if let Some((k, _)) = owner[i] {
